@@ -189,8 +189,8 @@ func cycleGuard(c *Ctx, rule, fnName string) {
 		if sl, ok := prm.Type().Underlying().(*types.Slice); ok && isLangNamed(sl.Elem(), "Value") {
 			path = prm
 		}
-		if b, ok := prm.Type().Underlying().(*types.Basic); ok && b.Kind() == types.Bool && strings.Contains(strings.ToLower(prm.Name()), "circular") {
-			flag = prm
+		if b, ok := prm.Type().Underlying().(*types.Basic); ok && b.Kind() == types.Bool {
+			flag = prm // the last bool parameter: the check flag (the renderer's quote flag precedes it)
 		}
 	}
 	if path == nil || flag == nil {
@@ -198,6 +198,7 @@ func cycleGuard(c *Ctx, rule, fnName string) {
 		return
 	}
 	recv := fn.Params[0]
+	pathName, recvName := canonParamName(path), canonParamName(recv)
 	nRec := 0
 	// the scan: a range loop over the path parameter containing isSame(elem, recv) and a return
 	loops := rangeLoops(fn, func(v ssa.Value) bool { return v == ssa.Value(path) })
@@ -207,7 +208,7 @@ func cycleGuard(c *Ctx, rule, fnName string) {
 			for _, in := range b.Instrs {
 				if call, ok := in.(*ssa.Call); ok && staticCalleeIs(call, "lang.isSame") {
 					a0, a1 := p.Render(call.Call.Args[0]), p.Render(call.Call.Args[1])
-					if (a0 == path.Name()+"[i@"+path.Name()+"]" && a1 == recv.Name()) || (a1 == path.Name()+"[i@"+path.Name()+"]" && a0 == recv.Name()) {
+					if (a0 == pathName+"[i@"+pathName+"]" && a1 == recvName) || (a1 == pathName+"[i@"+pathName+"]" && a0 == recvName) {
 						for _, r := range referrersOf(call) {
 							if ifi, ok := r.(*ssa.If); ok {
 								// the true edge returns
@@ -244,7 +245,7 @@ func cycleGuard(c *Ctx, rule, fnName string) {
 				flagArg = cv.Call.Args[i]
 			}
 		}
-		wantPath := "append(" + path.Name() + ", [" + recv.Name() + "][:])"
+		wantPath := "append(" + pathName + ", [" + recvName + "][:])"
 		c.check(p.Render(pathArg) == wantPath, rule, k+" path", p.InstrPos(cv), wantPath, "the recursive call passes "+p.Render(pathArg)+" as the path instead of "+wantPath+": the path no longer holds exactly the ancestors of the value being visited (a shared or never-popped list reports acyclic sharing as a cycle; a path without the receiver misses cycles)")
 		fb, isC := constBool(flagArg)
 		c.check(isC && fb, rule, k+" flag", p.InstrPos(cv), "check flag = true", "the recursive call does not pass the constant true as the check flag")
